@@ -31,14 +31,14 @@ Proof. exact constructed_octets_refused. Qed.
 Print Assumptions C15_constructed_string_refused.
 
 Theorem C15_constructed_bits_refused : forall rec fuel fl sp ts len,
-  df_constructed fl = false -> tag0_simple ts = false -> len <> 0%nat ->
+  df_constructed fl = false -> tag0_simple ts = false -> len <> 0 ->
   dec_bits rec fuel fl sp ts len false = Raise EMalformed.
 Proof. exact constructed_bits_refused. Qed.
 Print Assumptions C15_constructed_bits_refused.
 
 (* the strict BOOLEAN decoder accepts exactly one octet, 00 or FF *)
-Theorem C15_boolean_strict : forall sp ts (o: N) s s' d,
-  avail s = [o] ++ avail s' -> 
-  resume (dec_bool_cer sp ts 1) s = inr (Ok d, s') -> o = 0 \/ o = 255.
+Theorem C15_boolean_strict : forall fuel sp ts (o: N) s s' d,
+  avail s = [o] ++ avail s' ->
+  resume (dec_bool_cer fuel sp ts 1) s = inr (Ok d, s') -> o = 0 \/ o = 255.
 Proof. exact boolean_strict. Qed.
 Print Assumptions C15_boolean_strict.
